@@ -5,6 +5,7 @@ import (
 	"encoding/json"
 	"fmt"
 	"net"
+	"strings"
 
 	"github.com/facebookincubator/tacquito/cmds/server/config"
 
@@ -23,7 +24,7 @@ func init() {
 					"x allow{none,[10.0.0.0/8],[2001:db8::/32,10.1.0.0/16]}; addresses = for every prefix in the configuration its first-1, first, last, last+1 address, as IPv4, IPv6 and IPv4-mapped IPv6, plus a non-TCP address. " +
 					"Level 1: the real Loader.Get result (secret, handler, error) for every (configuration, address) against the reference admission model. Level 2 (full server over the scripted network, one configuration per scope-order class): " +
 					"a refused connection is closed with zero bytes written and zero handler invocations; a served one answers a command authorization obfuscated with the bound scope's key under that key, grants it for a user of that scope " +
-					"answers FAIL for a user that exists only in another scope, and a user name configured in every scope with a different bcrypt credential logs in (PAP) with the bound scope's credential and with no other scope's. Level 3 (engine E2): four overlapping-scope configurations are built and queried under the controlled scheduler, every schedule with <= 1 (quick) / 2 (thorough) deviations, so that any concurrency inside the loader's build cannot reorder scopes unnoticed. distinct_nontrivial = distinct (configuration, address) pairs where at least one filter or two scopes match",
+					"answers FAIL for a user that exists only in another scope, users assigned to every scope (listed in configuration order and in reverse) are granted everywhere and their session authorization returns exactly the value configured for the bound scope, and a user name configured in every scope with a different bcrypt credential logs in (PAP) with the bound scope's credential and with no other scope's. Level 3 (engine E2): four overlapping-scope configurations are built and queried under the controlled scheduler, every schedule with <= 1 (quick) / 2 (thorough) deviations, so that any concurrency inside the loader's build cannot reorder scopes unnoticed. distinct_nontrivial = distinct (configuration, address) pairs where at least one filter or two scopes match",
 				Assumptions: []string{"containment is bitwise within an address family; IPv4-mapped IPv6 addresses are IPv4 (Go net semantics)", "a scope without users is skipped (the loader's documented rule)"}}
 		},
 		Workers:      constInt(16, 16),
@@ -88,7 +89,18 @@ func c13Config(cs c13Case) config.ServerConfig {
 			all = append(all, s.Name)
 		}
 	}
-	cfg.Users = append(cfg.Users, config.User{Name: "everywhere", Scopes: all, Commands: []config.Command{{Name: "show", Action: config.PERMIT}}})
+	// users assigned to every scope - in configuration order and in the reverse order - with one service per scope that
+	// applies only on connections of that scope
+	var svcs []config.Service
+	for _, n := range all {
+		svcs = append(svcs, config.Service{Name: "shell", Match: []config.Value{{Name: "scope", Values: []string{n}}}, SetValues: []config.Value{{Name: "tag", Values: []string{n}}}})
+	}
+	rev := make([]string, len(all))
+	for i, n := range all {
+		rev[len(all)-1-i] = n
+	}
+	cfg.Users = append(cfg.Users, config.User{Name: "everywhere", Scopes: all, Commands: []config.Command{{Name: "show", Action: config.PERMIT}}, Services: svcs},
+		config.User{Name: "reversed", Scopes: rev, Commands: []config.Command{{Name: "show", Action: config.PERMIT}}, Services: svcs})
 	return cfg
 }
 
@@ -273,6 +285,36 @@ func c13Full(c *Ctx, rw *rworld, cs c13Case) {
 	}
 	if st, ok := ask("everywhere", 2); ok && st != 1 {
 		fail("shared-user-denied", fmt.Sprintf("a user assigned to every scope was answered status %#x", st))
+	}
+	if st, ok := ask("reversed", 20); ok && st != 1 {
+		fail("shared-user-denied", fmt.Sprintf("a user assigned to every scope (listed in reverse order) was answered status %#x", st))
+	}
+	// the scope a session authorization is evaluated in is the one the connection is bound to
+	for i, user := range []string{"everywhere", "reversed"} {
+		m := ref.NewMsg()
+		m.N["authen_method"], m.N["priv_lvl"], m.N["authen_type"], m.N["authen_service"] = 6, 1, 1, 1
+		m.S["user"] = []byte(user)
+		m.Args = [][]byte{[]byte("service=shell"), []byte("cmd=")}
+		body, _ := ref.AuthorRequest.Encode(m)
+		closed, err := rw.W.Deliver(conn, ref.Packet(ref.Header{Version: 0xc0, Type: 2, Seq: 1, Session: uint32(30 + i)}, key, body))
+		if err != nil {
+			c.Abort("hang", err.Error(), cs)
+		}
+		pk, rest := srvx.ParseStream(conn.Take())
+		if closed || len(pk) != 1 || len(rest) != 0 {
+			fail("no-answer", fmt.Sprintf("session authorization under the bound scope's key got closed=%v packets=%d", closed, len(pk)))
+			continue
+		}
+		rm, cl := ref.AuthorReply.Decode(ref.Obfuscate(pk[0].H, key, pk[0].Body))
+		var got []string
+		if rm != nil {
+			for _, a := range rm.Args {
+				got = append(got, strings.TrimSpace(string(a)))
+			}
+		}
+		if cl != ref.Exact || rm.N["status"] != 1 || len(got) != 1 || got[0] != "tag="+cs.Scopes[want].Name {
+			fail("session-scope", fmt.Sprintf("user %s on a connection bound to scope %s: session authorization answered %v (status %v), want exactly tag=%s", user, cs.Scopes[want].Name, got, rm, cs.Scopes[want].Name))
+		}
 	}
 	// the same user name with different credentials in different scopes: only the bound scope's entry exists here
 	login := func(pw string, sid uint32) (status int, ok bool) {
